@@ -156,6 +156,8 @@ theorem sel_thread_step (cfg : Cfg) (s t : St) (f : Bool) (h : Step cfg f s t) (
     (try simp only [St.setDone, St.setBg, ↓reduceIte, Bool.false_eq_true, Bool.and_false, Bool.and_true, Bool.false_and, Bool.true_and]) <;> (repeat' split) <;> (try simp only [List.getElem?_set]) <;> grind [St.setBg, St.setDone, St.bg, clearW, onOk, onErr, selNext, afterSetErr]
   | clAcq _ i hi ht =>
     (try simp only [St.setDone, St.setBg, ↓reduceIte, Bool.false_eq_true, Bool.and_false, Bool.and_true, Bool.false_and, Bool.true_and]) <;> (repeat' split) <;> (try simp only [List.getElem?_set]) <;> grind [St.setBg, St.setDone, St.bg, clearW, onOk, onErr, selNext, afterSetErr]
+  | clAcqKept _ i hi he hk hs =>
+    (try simp only [St.setDone, St.setBg, ↓reduceIte, Bool.false_eq_true, Bool.and_false, Bool.and_true, Bool.false_and, Bool.true_and]) <;> (repeat' split) <;> (try simp only [List.getElem?_set]) <;> grind [St.setBg, St.setDone, St.bg, clearW, onOk, onErr, selNext, afterSetErr]
   | clWait _ i hi hm ht =>
     (try simp only [St.setDone, St.setBg, ↓reduceIte, Bool.false_eq_true, Bool.and_false, Bool.and_true, Bool.false_and, Bool.true_and]) <;> (repeat' split) <;> (try simp only [List.getElem?_set]) <;> grind [St.setBg, St.setDone, St.bg, clearW, onOk, onErr, selNext, afterSetErr]
   | ehAcquire _ he ht =>
@@ -348,6 +350,8 @@ theorem step_hasperr_locked (cfg : Cfg) (s t : St) (f : Bool) (h : Step cfg f s 
   | clBody _ i hi =>
     (try simp only [St.setDone, St.setBg, ↓reduceIte, Bool.false_eq_true, Bool.and_false, Bool.and_true, Bool.false_and, Bool.true_and]) <;> (repeat' split) <;> simp_all
   | clAcq _ i hi ht =>
+    (try simp only [St.setDone, St.setBg, ↓reduceIte, Bool.false_eq_true, Bool.and_false, Bool.and_true, Bool.false_and, Bool.true_and]) <;> (repeat' split) <;> simp_all
+  | clAcqKept _ i hi he hk hs =>
     (try simp only [St.setDone, St.setBg, ↓reduceIte, Bool.false_eq_true, Bool.and_false, Bool.and_true, Bool.false_and, Bool.true_and]) <;> (repeat' split) <;> simp_all
   | clWait _ i hi hm ht =>
     (try simp only [St.setDone, St.setBg, ↓reduceIte, Bool.false_eq_true, Bool.and_false, Bool.and_true, Bool.false_and, Bool.true_and]) <;> (repeat' split) <;> simp_all
